@@ -88,7 +88,7 @@ def check_source(text, uri, M, case, all_opts=True, idx=0):
         st, envs, opened, _ = observe.enum_observed(text, uri=uri, options=opts)
         c = dict(case, options=list(opts))
         if st != "ok":
-            mech = observe.F1 if (envs.get("origin", "").startswith("token_scanner.py:__init__") and os.path.exists(text)) else None
+            mech = observe.f1_from_opened(text, opened)
             M.violation("C17.crash", {"what": "exception escaped GherkinEvents.enum", **envs}, c, mechanism=mech)
             continue
         if text in opened:
@@ -128,7 +128,7 @@ def check_stop_mode(text, uri, M, case):
     M.count("enum_calls")
     st, envs, opened, _ = observe.enum_observed(text, uri=uri, options=(False, True, True), stop=True)
     if st != "ok":
-        mech = observe.F1 if (envs.get("origin", "").startswith("token_scanner.py:__init__") and os.path.exists(text)) else None
+        mech = observe.f1_from_opened(text, opened)
         M.violation("C17.crash", {"what": "exception escaped GherkinEvents.enum (stop-at-first-error parser)", **envs}, case, mechanism=mech)
         return
     if st0 == "accepted":
